@@ -73,6 +73,11 @@ func (s *Seq) callOp(db *sod.DB, m *model.Model, op *Op) error {
 func RunIOFault(p Params) *Result {
 	prof := *Profiles["C06F"]
 	r := simrt.NewRand(simrt.Mix(p.Seed, 11))
+	if r.Fork(9).Chance(1, 3) {
+		// a third of the runs put the faults into asynchronous collections: the calls
+		// of the operation are then the marker and the commits, not the object writes
+		prof = *Profiles["C06FA"]
+	}
 	cfg := GenConfig(r.Fork(1), &prof)
 	pools := GenPools(r.Fork(2), 3)
 	ops := GenOps(r.Fork(3), cfg, pools, &prof)
@@ -92,6 +97,18 @@ func RunIOFault(p Params) *Result {
 	var before *model.Model
 	cases := 0
 	s.Hooks.BeforeOp = func(s *Seq, i int, op *Op) {
+		if s.Cfg.Async || s.smallAsync {
+			// the fresh handles start from the disk: nothing may be pending
+			if err := s.db.FlushAllAndCommit(rec0()); err != nil {
+				s.fail("read", "flush-failed:allcommit", "FlushAllAndCommit failed: %v", err)
+			}
+			if s.small != nil {
+				if err := s.db.FlushAllAndCommit(small0()); err != nil {
+					s.fail("read", "flush-failed:allcommit", "FlushAllAndCommit (second collection) failed: %v", err)
+				}
+			}
+			s.quiescent, s.smallDirty = true, false
+		}
 		snap = w.FS.Snapshot()
 		before = s.M.CopyState()
 	}
@@ -136,6 +153,16 @@ func (s *Seq) faultPoints(snap *simrt.Snapshot, before *model.Model, op *Op) int
 	live := s.W.FS.Snapshot()
 	after := s.M
 	defer s.W.FS.Restore(live)
+	if s.Cfg.Async || s.smallAsync {
+		// no flusher runs while the disk is swapped (neither the main handle's nor
+		// those of the fresh handles, which are unwound afterwards)
+		s.W.Exclusive(true)
+		mark := s.W.TaskMark()
+		defer func() {
+			s.W.KillSince(mark)
+			s.W.Exclusive(false)
+		}()
+	}
 	// dry run: count the calls of the operation on a fresh handle
 	s.W.FS.Restore(snap)
 	db := sod.Open(s.Root)
@@ -190,7 +217,13 @@ func (s *Seq) faultPoints(snap *simrt.Snapshot, before *model.Model, op *Op) int
 		}
 		n++
 		desc := fmt.Sprintf("%s: %s injected at %s (call %d/%d, write %d/%d); the call returned: %v", op.K, pt.kind, ft.Where, pt.at, nCalls, pt.atw, nWrites, err)
-		s.tolerateKnown(func() { s.judgeFault(db, desc, before, after, err, pt.kind+"@"+faultSite(ft.Where)) })
+		site := pt.kind + "@" + faultSite(ft.Where)
+		s.tolerateKnown(func() {
+			if s.Cfg.Async {
+				s.judgeFaultPending(db, desc, before, after, err, op, site)
+			}
+			s.judgeFault(db, desc, before, after, err, site)
+		})
 	}
 	return n
 }
@@ -271,6 +304,52 @@ func (s *Seq) judgeFault(db *sod.DB, desc string, before, after *model.Model, ca
 	}
 	s.stat("probe:fault-reported-as-corruption")
 	s.repairAndCheck(db, files, desc, class+":"+site)
+}
+
+// judgeFaultPending is the part of the oracle that is specific to asynchronous
+// collections, where the truth is files + pending writes: right after the call,
+// before anything is flushed, a handle whose Control reports nothing must show
+// the state before a failed call (after a successful one) on every read path.
+// Then the pending writes are flushed (not committed) and the synchronous
+// oracle applies to the files.
+func (s *Seq) judgeFaultPending(db *sod.DB, desc string, before, after *model.Model, callErr error, op *Op, site string) {
+	class := opClass(before, after)
+	single := op.K == "save" || op.K == "del" || op.K == "delall"
+	if single || callErr == nil {
+		// a call that reports success must show its result; one that fails on storage
+		// may have been applied or not (as in synchronous mode), but the handle must
+		// show one of the two states on every read path, not a mixture
+		cands := []*model.Model{after}
+		if callErr != nil {
+			cands = []*model.Model{before, after}
+		}
+		if cerr := db.Control(); cerr == nil {
+			seed := s.prng.Uint64()
+			var first *Violation
+			ok := false
+			for _, exp := range cands {
+				v := s.subCheck(db, exp, seed, 2, "after-fault-pending", false)
+				if v == nil {
+					ok = true
+					break
+				}
+				if first == nil {
+					first = v
+				}
+			}
+			if !ok {
+				what := "the handle shows neither the state before nor after the failed call"
+				if callErr == nil {
+					what = "the call reported success but its result is not visible"
+				}
+				s.fail("iofault", "async-silent-divergence-live:"+class+":"+site+":"+first.Tag, "%s: Control reports nothing, yet %s: %s", desc, what, first.Msg)
+			}
+			s.stat("probe:async-fault-live-checked")
+		}
+	}
+	if err := db.FlushAll(rec0()); err != nil {
+		s.fail("iofault", "async-flush-fails-after-fault:"+class+":"+site, "%s: FlushAll (no fault armed any more) fails: %v", desc, err)
+	}
 }
 
 func (s *Seq) repairAndCheck(db *sod.DB, files *model.Model, desc, site string) {
